@@ -1,5 +1,4 @@
 use super::super::bounds::get_bounded_slice;
-use super::super::error::Error;
 use super::super::reader::{ByteReader, Cursor, read_u32_array};
 use super::super::types::ParseResult;
 use crate::types::*;
@@ -66,32 +65,7 @@ pub fn parse_dxtn<'a>(
     let mut read_image = |i: usize| -> ParseResult<()> {
         let offset = offsets[i];
         let size = sizes[i];
-        if offset as usize >= original_input.len() {
-            error!(
-                "Offset of mipmap {} is out of bounds! {} >= {}",
-                i,
-                offset,
-                original_input.len()
-            );
-            return Err(Error::OutOfBounds {
-                offset: offset as usize,
-                size: 0,
-            });
-        }
-        if (offset + size) as usize > original_input.len() {
-            error!(
-                "Offset+size of mipmap {} is out of bounds! {} > {}",
-                i,
-                offset + size,
-                original_input.len()
-            );
-            return Err(Error::OutOfBounds {
-                offset: offset as usize,
-                size: size as usize,
-            });
-        }
-
-        let image_bytes = &original_input[offset as usize..(offset + size) as usize];
+        let image_bytes = get_bounded_slice(original_input, offset, size, i)?;
         // DXT stores whole 4x4 blocks per row and column, so the block count is the
         // product of the rounded-up sides, not the rounded-up pixel count / 16.
         let (width, height) = blp_header.mipmap_size(i);
